@@ -261,7 +261,9 @@ OnHEnd(m, ev) ==
      (IF j = 0 THEN m
       ELSE LET r == m.reqs[j]
                m0 == [m EXCEPT !.reqs[j].produced = TRUE,
-                               !.reqs[j].st = IF ev.k = "ok" THEN @ ELSE "failed"]
+                               \* (protocol handlers of the harness fail only with outcome "err"; any other
+                               \*  outcome acknowledges the message)
+                               !.reqs[j].st = IF ev.k = "err" THEN "failed" ELSE @]
                m1 == IF ev.k = "err" THEN ExpectErrStop(m0) ELSE m0
                pi == IdxOf(m.pubs, LAMBDA p : p.id = r.id /\ p.q = 2 /\ p.rel /\ ~p.relProduced /\ ~p.refused)
            IN IF r.kind \in {"pubrel", "pubrel_early"} /\ pi > 0
